@@ -1,6 +1,7 @@
 package main
 
 import (
+	"crypto/ecdh"
 	"crypto/ecdsa"
 	"crypto/elliptic"
 	"crypto/rand"
@@ -8,6 +9,7 @@ import (
 	"crypto/x509"
 	"crypto/x509/pkix"
 	"math/big"
+	"sync"
 	"time"
 
 	tls "github.com/refraction-networking/utls"
@@ -87,6 +89,37 @@ func (b *pkiBlob) load() (*pki, error) {
 	p.leaf = tls.Certificate{Certificate: [][]byte{b.Leaf}, PrivateKey: lk}
 	p.client = tls.Certificate{Certificate: [][]byte{b.Client}, PrivateKey: ck}
 	return p, nil
+}
+
+// ECH keys of the test server (generated once per process; the parrots only send GREASE ECH, so the
+// keys never have to match anything the client holds). The config ids are fixed: spec/Flight.tla names them.
+var (
+	echOnce sync.Once
+	echKeys []tls.EncryptedClientHelloKey
+)
+
+func echServerKeys(two bool) []tls.EncryptedClientHelloKey {
+	echOnce.Do(func() {
+		for _, id := range []byte{7, 107} {
+			k, err := ecdh.X25519().GenerateKey(rand.Reader)
+			if err != nil {
+				panic(err)
+			}
+			pub, name := k.PublicKey().Bytes(), "public.example"
+			body := []byte{id, 0x00, 0x20, byte(len(pub) >> 8), byte(len(pub))}
+			body = append(body, pub...)
+			body = append(body, 0, 4, 0, 1, 0, 1) // cipher suites: HKDF-SHA256 / AES-128-GCM
+			body = append(body, 64, byte(len(name)))
+			body = append(body, name...)
+			body = append(body, 0, 0)
+			cfg := append([]byte{0xfe, 0x0d, byte(len(body) >> 8), byte(len(body))}, body...)
+			echKeys = append(echKeys, tls.EncryptedClientHelloKey{Config: cfg, PrivateKey: k.Bytes(), SendAsRetry: true})
+		}
+	})
+	if two {
+		return echKeys
+	}
+	return echKeys[:1]
 }
 
 func init() {
